@@ -24,7 +24,7 @@ META = {
         'and date-times use exact conversions; only coordinates use %f.  (D5) framing: the grid template (header, column '
         'line, rows, final newline) is included in the reader\'s grid rule, no scalar text is empty or contains a raw '
         'line break, grids are joined by the separator the reader splits on.  (D6) assembly: _gen_grid rebuilds version, '
-        'ordered metadata, ordered columns and rows by zipping cells onto column names.  Not decided: equality of the '
+        'ordered metadata, ordered columns and rows by zipping cells onto column names.  (D7) date-time payloads: the reader converts the written instant into the named zone with astimezone, the writer emits isoformat() of the value itself plus the zone name.  Not decided: equality of the '
         'reconstructed objects (float parsing, tz arithmetic: see C17).'),
     'rule_text': 'obligations = ladder rows, kinds x (inclusion + pairwise disjointness) x 2 versions, code-point classes, '
                  'exactness per kind, framing/assembly facts',
@@ -50,6 +50,8 @@ def run(ctx):
         _framing(ctx, version)
     _document(ctx)
     _assembly(ctx)
+    from . import c17
+    c17._api(ctx, ctx.model, rule='C01.D7', only=('zincparser', 'zincdumper'))
 
 
 def _exactness(ctx, templates):
@@ -202,35 +204,18 @@ def _assembly(ctx):
     except AnalysisError as e:
         ctx.error('C01.D6', str(e))
         return
-    texts = [norm(x) for x in body_wo_doc(fn)]
-    V = lambda stmt, wit, what: ctx.violation('C01.D6', '%s::_gen_grid' % FP, stmt, wit, what, file=FP, line=fn.lineno,
-                                              engine='E9')
-    if texts and texts[0] in ('(grid_meta, col_meta, rows) = toks', 'grid_meta, col_meta, rows = toks'):
-        ctx.ob('C01.D6', '_gen_grid receives (grid metadata, columns, rows) in grammar order', True, '%s:%d' % (FP, fn.lineno))
-    else:
-        V(texts[0] if texts else '', 'metadata/columns/rows are mixed up', '_gen_grid does not unpack (grid_meta, col_meta, rows)')
-    ctor = [n for n in walk_no_nested(fn) if isinstance(n, ast.Call) and norm(n.func) == 'Grid']
-    if ctor:
-        kw = {k.arg: norm(k.value) for k in ctor[0].keywords}
-        if kw.get('version') == "grid_meta.pop('ver')" and kw.get('metadata') == 'grid_meta' \
-                and kw.get('columns') == 'list(col_meta.items())':
-            ctx.ob('C01.D6', 'the grid is built from the parsed version, the remaining ordered metadata and the ordered '
-                             'column pairs', True, '%s:%d' % (FP, ctor[0].lineno))
-        else:
-            V(norm(ctor[0]), 'parse(dump(g)) has another version / metadata / column order than g',
-              'Grid(...) is called with %s' % kw)
-    else:
-        V('Grid(...)', 'no grid is built', '_gen_grid does not construct a Grid')
-    ext = [n for n in walk_no_nested(fn) if isinstance(n, ast.Call) and norm(n.func).endswith('.extend')]
-    good = ('g.extend(map(lambda row: dict(zip(col_meta.keys(), row)), rows))',
-            'g.extend([dict(zip(col_meta.keys(), row)) for row in rows])')
-    if ext and norm(ext[0]) in good:
-        ctx.ob('C01.D6', 'rows are rebuilt by zipping each cell list onto the column names in order', True,
-               '%s:%d' % (FP, ext[0].lineno))
-    elif ext:
-        V(norm(ext[0]), 'cells come back under the wrong column names', 'rows are assembled as %s' % norm(ext[0]))
-    else:
-        V('g.extend', 'parse() returns a grid without rows', '_gen_grid does not add the rows')
+    from .. import match
+    sc = match.Script(ctx, 'C01.D6', [fn], FP, '%s::_gen_grid' % FP)
+    sc.need(['(_R_gmeta, _R_cmeta, _R_rows) = _R_toks'], '_gen_grid receives (grid metadata, columns, rows) in grammar order',
+            'metadata/columns/rows are mixed up')
+    sc.need(["_R_g = Grid(version=_R_gmeta.pop('ver'), metadata=_R_gmeta, columns=list(_R_cmeta.items()))"],
+            'the grid is built from the parsed version, the remaining ordered metadata and the ordered column pairs',
+            'parse(dump(g)) has another version / metadata / column order than g')
+    sc.need(['_R_g.extend(map(lambda _R_row: dict(zip(_R_cmeta.keys(), _R_row)), _R_rows))',
+             '_R_g.extend([dict(zip(_R_cmeta.keys(), _R_row)) for _R_row in _R_rows])'],
+            'rows are rebuilt by zipping each cell list onto the column names in order',
+            'cells come back under the wrong column names')
+    sc.need(['return _R_g'], 'the assembled grid is the parse result', 'the parse result is not the assembled grid')
     t2 = [norm(x) for x in body_wo_doc(av)]
     if "grid_meta.add_item('ver', ver, index=0)" in t2 and 'return grid_meta' in t2:
         ctx.ob('C01.D6', '_assign_ver stores the version under "ver" (popped again by _gen_grid)', True,
